@@ -388,11 +388,43 @@ func constructorWiring(specs ...wiringSpec) func(c *Ctx, id string) {
 				continue
 			}
 			lits := allocsOf(fn, named)
+			// the exported constructor may pack its parameters into a bundle for an unexported one that holds the literal
+			// and whose result it returns: the fields are then read in the inner one, in terms of what the outer one passes
+			home := fn
+			var via *ssa.Call
+			if len(lits) == 0 {
+				allInstrs(fn, func(in ssa.Instruction) {
+					if r, ok := in.(*ssa.Return); ok && len(r.Results) == 1 {
+						if call, isCall := unwrap(r.Results[0]).(*ssa.Call); isCall {
+							if g := call.Common().StaticCallee(); g != nil && g.Blocks != nil && pkgPathOf(g) == pkgPathOf(fn) && len(allocsOf(g, named)) == 1 && len(w.callersOf(g)) == 1 {
+								home, via = g, call
+							}
+						}
+					}
+				})
+				if via != nil {
+					lits = allocsOf(home, named)
+					c.see(home)
+				}
+			}
 			if len(lits) != 1 {
 				c.Undecided(id, "wiring:"+sp.ctor, fn.Pos(), "%d literals of %s in %s", len(lits), sp.typ, sp.ctor)
 				continue
 			}
 			tab, _ := allocTable(lits[0])
+			if via != nil {
+				// replace every field value that is a formal input of the inner constructor by what the outer one hands in
+				for k, v := range tab {
+					o := w.Origin(v)
+					for _, vp := range vparams(home) {
+						if vp.Term() == o {
+							if a := argOfVParam(via.Common(), home, vp); a != nil {
+								tab[k] = a
+							}
+						}
+					}
+				}
+			}
 			var bad []string
 			for _, f := range sp.params {
 				v, has := tab[f]
@@ -430,13 +462,13 @@ func constructorWiring(specs ...wiringSpec) func(c *Ctx, id string) {
 					bad = append(bad, f+" is not set")
 					continue
 				}
-				if a := asAlloc(v); a == nil || a.Parent() != fn {
+				if a := asAlloc(v); a == nil || (a.Parent() != fn && a.Parent() != home) {
 					bad = append(bad, f+" ← "+w.Origin(v)+" (expected a fresh value of this instance)")
 				}
 			}
 			// the literal is what is returned (not wrapped on the way out)
 			retOK := false
-			allInstrs(fn, func(in ssa.Instruction) {
+			allInstrs(home, func(in ssa.Instruction) {
 				if r, ok := in.(*ssa.Return); ok && len(r.Results) == 1 {
 					if asAlloc(r.Results[0]) == lits[0] {
 						retOK = true
@@ -1150,6 +1182,28 @@ func absentMarkWriters(c *Ctx, id string) {
 			badCall += " (taken as a function value)"
 		}
 	}
+	// … and the map that is asked is the one the mitigation adopted: the observe loop waits for the copies of *that* map;
+	// another agent's snapshot may be a revision behind (a copy it does not list yet would be marked absent and never
+	// waited for)
+	nAsk, badMap := 0, ""
+	for _, fn := range w.ModFuncs {
+		root := rootFn(fn)
+		if root.Signature.Recv() == nil || recvTypeName(root.Signature.Recv().Type()) != recvTypeName(mark.Signature.Recv().Type()) || pkgPathOf(root) != pkgPathOf(mark) {
+			continue
+		}
+		allInstrs(fn, func(in ssa.Instruction) {
+			cc := callOf(in)
+			if cc == nil || cc.StaticCallee() == nil || cc.StaticCallee().Name() != "VbucketToServer" || len(cc.Args) == 0 {
+				return
+			}
+			nAsk++
+			o := strings.TrimPrefix(w.Origin(cc.Args[0]), "*")
+			if !strings.HasPrefix(o, "recv.") || strings.Count(o, ".") != 1 || strings.ContainsAny(o, "()[] ") {
+				badMap += " " + o + "@" + w.pos(in.Pos())
+			}
+		})
+	}
+	c.Check(nAsk > 0 && badMap == "", id, "absent-mark:map", mark.Pos(), fmt.Sprintf("%d lookups, all in the cluster map the mitigation holds", nAsk), "where a copy lives is asked of a map other than the one the mitigation adopted:"+badMap)
 	c.Check(n > 0 && badCall == "", id, "absent-mark:callers", mark.Pos(), fmt.Sprintf("%d call(s), all from the cluster-map lookup", n), "a copy is marked absent outside the cluster-map lookup:"+badCall+" — a live copy would drop out of the persistence minimum")
 }
 
